@@ -146,7 +146,40 @@ Definition oc_result := (option N * option N * N * pmap)%type.   (* first, last,
 Definition set_opt (d : dict) (k : bytes) (o : option N) : dict :=
   match o with Some n => dict_set d k (ORef n 0) | None => d end.
 
-(* the [for i in parent.1] loop; [rec] is the recursive call of outline_child *)
+(* `if first.is_none() { first = Some(id) } else if let Some(x) = last { processed[x].Next = id; child.Prev = x }` *)
+Definition link_prev (first last : option N) (id : N) (child : dict) (pm : pmap)
+  : outcome (option N * dict * pmap) :=
+  match first with
+  | None => OOk (Some id, child, pm)
+  | Some _ =>
+    match last with
+    | Some x =>
+      match pm_get pm x with
+      | None => OPanic                                 (* processed.get_mut(&x).unwrap() *)
+      | Some dx => OOk (first, dict_set child K_Prev (ORef x 0),
+                        pm_put pm x (dict_set dx K_Next (ORef id 0)))
+      end
+    | None => OOk (first, child, pm)
+    end
+  end.
+
+(* `if !bookmark.children.is_empty() { recurse; set First, Last, Count }`; [rec] is the recursive
+   call of outline_child; returns the child dictionary, the new maxid and the processed map *)
+Definition with_children (rec : N -> list N -> N -> pmap -> outcome oc_result)
+           (id info_id : N) (children : list N) (child1 : dict) (pm1 : pmap) : outcome (dict * N * pmap) :=
+  match children with
+  | [] => OOk (child1, info_id, pm1)
+  | ch =>
+    match rec id ch info_id pm1 with
+    | OOk (cf, cl, mx, pm2) =>
+      OOk (dict_set (set_opt (set_opt child1 K_First cf) K_Last cl)
+                    K_Count (OInt (Z.of_nat (length ch))), mx, pm2)
+    | OPanic => OPanic
+    | OFuel => OFuel
+    end
+  end.
+
+(* the [for i in parent.1] loop *)
 Fixpoint outline_loop (rec : N -> list N -> N -> pmap -> outcome oc_result)
          (tbl : btable) (pid : N) (ids : list N)
          (first last : option N) (maxid : N) (pm : pmap) : outcome oc_result :=
@@ -158,38 +191,11 @@ Fixpoint outline_loop (rec : N -> list N -> N -> pmap -> outcome oc_result)
     match tbl_get tbl i with
     | None => OPanic                                   (* bookmark_table.get(i).unwrap() *)
     | Some bm =>
-      let child := child_base pid bm info_id in
-      let r1 : outcome (option N * dict * pmap) :=
-        match first with
-        | None => OOk (Some id, child, pm)
-        | Some _ =>
-          match last with
-          | Some x =>
-            match pm_get pm x with
-            | None => OPanic                           (* processed.get_mut(&x).unwrap() *)
-            | Some dx => OOk (first, dict_set child K_Prev (ORef x 0),
-                              pm_put pm x (dict_set dx K_Next (ORef id 0)))
-            end
-          | None => OOk (first, child, pm)
-          end
-        end in
-      match r1 with
+      match link_prev first last id (child_base pid bm info_id) pm with
       | OPanic => OPanic
       | OFuel => OFuel
       | OOk (first', child1, pm1) =>
-        let r2 : outcome (dict * N * pmap) :=
-          match bm_children bm with
-          | [] => OOk (child1, info_id, pm1)
-          | ch =>
-            match rec id ch info_id pm1 with
-            | OOk (cf, cl, mx, pm2) =>
-              OOk (dict_set (set_opt (set_opt child1 K_First cf) K_Last cl)
-                            K_Count (OInt (Z.of_nat (length ch))), mx, pm2)
-            | OPanic => OPanic
-            | OFuel => OFuel
-            end
-          end in
-        match r2 with
+        match with_children rec id info_id (bm_children bm) child1 pm1 with
         | OPanic => OPanic
         | OFuel => OFuel
         | OOk (child2, mx, pm2) =>
